@@ -38,6 +38,9 @@ CLASS_SPECS = [
     ["HEqNM", "HNM"],
     ["HNode", "HSymlinkU", "HAnyNode", "HSymlinkU"],
     ["Node", "SymlinkNodeU"],
+    "HSlotStoreNM",
+    "HSideNM",
+    ["HSideNM", "HNM", "HSlotStoreNM"],
 ]
 
 
